@@ -124,13 +124,26 @@ def wiring(ctx):
     detail = {}
     if isinstance(fs, ast.Name):
         defs = asg.get(fs.id, [])
-        texts = [expanded_text(fn, v, stop=(fs.id,)) for _, v in defs if v is not None]
-        detail = {"fixed_sites": fs.id, "definitions": texts}
-        conc = [t for t in texts if t.startswith("np.concatenate([t.site_indices for t in self.terminal_info]")
-                or t.startswith("np.concatenate([t.site_indices for t in device.terminal_info()]")
-                or t.startswith("np.concatenate([t.site_indices for t in self.device.terminal_info()]")]
-        empt = [t for t in texts if t.startswith("np.array([]")]
-        ok = len(conc) == 1 and len(conc) + len(empt) == len(texts)
+        kinds = []
+        for _, v in defs:
+            if v is None:
+                kinds.append("?")
+                continue
+            e = expand(fn, v, stop=(fs.id,))
+            k = "?"
+            if isinstance(e, ast.Call) and norm(e.func).endswith("concatenate") and e.args:
+                a0 = e.args[0]
+                if isinstance(a0, (ast.ListComp, ast.GeneratorExp)) and len(a0.generators) == 1 and not a0.generators[0].ifs \
+                        and isinstance(a0.elt, ast.Attribute) and a0.elt.attr == "site_indices" \
+                        and isinstance(a0.elt.value, ast.Name) and isinstance(a0.generators[0].target, ast.Name) \
+                        and a0.elt.value.id == a0.generators[0].target.id \
+                        and norm(a0.generators[0].iter) in ("self.terminal_info", "device.terminal_info()", "self.device.terminal_info()"):
+                    k = "all-terminals"
+            elif isinstance(e, ast.Call) and norm(e.func).endswith("array") and e.args and isinstance(e.args[0], ast.List) and not e.args[0].elts:
+                k = "empty"
+            kinds.append(k)
+        detail = {"fixed_sites": fs.id, "definitions": [norm(expand(fn, v, stop=(fs.id,)))[:120] for _, v in defs if v is not None], "kinds": kinds}
+        ok = kinds.count("all-terminals") == 1 and all(k in ("all-terminals", "empty") for k in kinds)
     ctx.ob("R06.3", "fixed_sites == concatenation of every terminal's site_indices (or empty)", ok, detail=detail,
            where=fi.fq, construct="MeshOperators(fixed_sites=...)", loc=loc(fi, call),
            message=f"fixed_sites is built as {detail}", consequence="sites outside terminals are pinned, or a terminal is left free")
